@@ -21,6 +21,7 @@
 
 import sys
 import ast
+import inspect
 import threading
 import collections
 import functools
@@ -532,6 +533,8 @@ def _annotations_owner(func):
 
 
 def _autoforwards_function(func, args, kwargs):
+    # a __wrapped__ cycle is an error for inspect.signature (ValueError)
+    inspect.unwrap(func, stop=lambda f: hasattr(f, '__signature__'))
     annotated = _annotations_owner(func)
     with cleanup_functools_wrapper(func):
         try:
